@@ -4,5 +4,6 @@ CONSTANTS
   MaxSess = 3
   MaxRpc = 2
   InLock = TRUE
+  MaxWedged = 1
 INVARIANTS TypeOK Sync CanMakeCallsConsistent ServedByLive UnavailOnlyIfEmpty Resumable NoStaleReady
 CHECK_DEADLOCK FALSE
